@@ -80,6 +80,7 @@ pub fn run(cfg: &Cfg, rep: &mut Report) {
             // reference run with the growable buffer
             dev.clear();
             let mut full: Vec<u8> = Vec::new();
+            c.mav = rng.chance(1, 3);
             let r_full = built.root().run(&msg, &mut dev, &mut c, &mut full);
             let inv_full = dev.invocations().len();
             let maxcap = full.len() + 2;
